@@ -540,14 +540,18 @@ class TimeParameterType(ParameterType, metaclass=ABCMeta):
                 raise ValueError("Expected to get a PolynomialCalibrator for TimeParameterType but "
                                  f"got {self.encoding.default_calibrator}")
             coefficients = self.encoding.default_calibrator.coefficients
-            scale = [c.coefficient for c in coefficients if c.exponent == 1]
-            offset = [c.coefficient for c in coefficients if c.exponent == 0]
+            # Only a linear calibration can be expressed as scale and offset. Any other polynomial is carried
+            # by the DefaultCalibrator of the nested data encoding alone (the reader replaces that calibrator
+            # by scale and offset when they are present, which would drop the other terms).
+            if sorted(c.exponent for c in coefficients) in ([1], [0, 1]):
+                scale = [c.coefficient for c in coefficients if c.exponent == 1]
+                offset = [c.coefficient for c in coefficients if c.exponent == 0]
 
-            if scale:
-                encoding_attrib["scale"] = str(scale[0])
+                if scale:
+                    encoding_attrib["scale"] = str(scale[0])
 
-            if offset:
-                encoding_attrib["offset"] = str(offset[0])
+                if offset:
+                    encoding_attrib["offset"] = str(offset[0])
 
         element.append(
             elmaker.Encoding(
